@@ -125,7 +125,7 @@ fn zero() -> Point3D { Point3D::new(0., 0., 0.) }
 fn push(sink: &mut Sink, kind: usize, op: usize, i: &[Float], o: &[Float], extra: &str) {
     sink.push(
         format!("({}%N, {}%N, {}, {})", kind, op, sfs(i), sfs(o)),
-        format!("{{\"kind\":{},\"op\":{},\"in\":{},\"out\":{}{}}}", kind, op, jfs(i), jfs(o), extra),
+        format!("{{{}\"kind\":{},\"op\":{},\"in\":{},\"out\":{}{}}}", f32_mark(), kind, op, jfs(i), jfs(o), extra),
     );
 }
 
@@ -271,7 +271,8 @@ pub fn run(seed: u64, n: usize, out: &str) {
     // util::Rng::new(s) and Rng::new(s+1) are the same SplitMix64 stream one draw apart: take the state from a first
     // draw so that neighbouring seeds give unrelated case sequences
     let mut r = Rng(Rng::new(seed ^ 0xC15).next());
-    let mut sink = Sink::new(out, "C15", 250);
+    // f32 build: runner module C15f32 of Run/C15.v (the same text on the binary32 instance)
+    let mut sink = Sink::new32(out, "C15", 250);
     // corpus: a rotated unit cube (every corner matters), touching boxes, a partial sphere, an axis cylinder
     {
         let t = chain_tr(&[Elem::Rz(45.0), Elem::Rx(30.0)]);
@@ -349,7 +350,7 @@ pub fn replay(args: &[String]) {
     let kind: usize = args[0].parse().unwrap();
     let op: usize = args[1].parse().unwrap();
     let v: Vec<Float> = args[2..].iter().map(|s| Float::from_bits(s.parse().unwrap())).collect();
-    let mut sink = Sink::new("/dev/null", "C15", 1);
+    let mut sink = Sink::new32("/dev/null", "C15", 1);
     let mut r = Rng::new(0xC15);
     match kind {
         0 => push(&mut sink, 0, op, &v, &box_apply(op, &v), ""),
